@@ -37,6 +37,10 @@ func (vr *TestDownstreamEncoderRequest) Decode(e enc.Encoder, req []byte) error 
 		req = rem
 	}
 
+	if len(req) == 0 {
+		return errors.Errorf("Missing downstream encoder code")
+	}
+
 	var err error
 	vr.DownstreamEncoder, err = enc.FromCode(req[0])
 	if err != nil {
